@@ -62,7 +62,9 @@ structure LineMember (f : LineFeature R) (ctx : Ctx R) (q : Query R) (h : LineHi
     lineInside f.isFault h.pd.distanceFromPlane h.pd.distanceAlongPlane
       (h.cur.thLocal h.next h.pd.fractionOfSection h.pd.fractionOfSegment)
       (h.cur.ttLocal h.next h.pd.fractionOfSection h.pd.fractionOfSegment)
-      (maxLenLocal secCur secNext h.pd.fractionOfSection)
+      (maxLenLocal secCur secNext h.pd.fractionOfSection) ∧
+    -- the `AdditionalParameters{max_slab_length, thickness_local}` handed to the models are the two interpolated quantities of the test
+    h.ap = ⟨maxLenLocal secCur secNext h.pd.fractionOfSection, h.cur.thLocal h.next h.pd.fractionOfSection h.pd.fractionOfSegment⟩
   thicknessNonzero : ¬ fabs (h.cur.thLocal h.next h.pd.fractionOfSection h.pd.fractionOfSegment) < (2.0 : R) * Scalar.eps
   thicknessAboveTruncation : ¬ h.cur.thLocal h.next h.pd.fractionOfSection h.pd.fractionOfSegment
       < h.cur.ttLocal h.next h.pd.fractionOfSection h.pd.fractionOfSegment
@@ -73,7 +75,7 @@ theorem idx_eq_ok {α : Type} (xs : List α) (i : Nat) (v : α) : idx xs i = .ok
   | none => simp
   | some w => simp
 
-theorem LineHit.eta (h : LineHit R) : (⟨h.pd, h.cur, h.next⟩ : LineHit R) = h := by cases h; rfl
+theorem LineHit.eta (h : LineHit R) : (⟨h.pd, h.cur, h.next, h.ap⟩ : LineHit R) = h := by cases h; rfl
 
 /-- the tail of `coversBody` once the geometry has returned -/
 theorem coversBody_after (f : LineFeature R) (ctx : Ctx R) (q : Query R) (pd : PlaneDist R) (h : LineHit R)
@@ -130,14 +132,16 @@ theorem coversBody_after (f : LineFeature R) (ctx : Ctx R) (q : Query R) (pd : P
   | some next =>
   simp only [idx, hsc, hsn, hc, hn]
   -- what a member must look like
-  have key : ∀ hm : (h.pd = pd ∧ LineMember f ctx q h), h = ⟨pd, cur, next⟩ := by
+  have key : ∀ hm : (h.pd = pd ∧ LineMember f ctx q h),
+      h = ⟨pd, cur, next, ⟨maxLenLocal secCur secNext pd.fractionOfSection, cur.thLocal next pd.fractionOfSection pd.fractionOfSegment⟩⟩ := by
     rintro ⟨hpd, hm⟩
-    obtain ⟨sc, sn, h1, h2, h3, h4, _⟩ := hm.segments
+    obtain ⟨sc, sn, h1, h2, h3, h4, _, h5⟩ := hm.segments
     rw [hpd, hsc] at h1; cases h1
     rw [hpd, hsn] at h2; cases h2
     rw [hpd, hc] at h3; cases h3
     rw [hpd, hn] at h4; cases h4
-    rw [← hpd]
+    rw [hpd] at h5
+    rw [← h5, ← hpd]
   by_cases hth : fabs (cur.thLocal next pd.fractionOfSection pd.fractionOfSegment) < (2.0 : R) * Scalar.eps
   · have hth' := hth
     unfold Segment.thLocal lerpC at hth'
@@ -194,15 +198,17 @@ theorem coversBody_after (f : LineFeature R) (ctx : Ctx R) (q : Query R) (pd : P
     simp only [hb, if_true]
     constructor
     · intro hh
-      have : h = ⟨pd, cur, next⟩ := by
+      have : h = ⟨pd, cur, next, ⟨maxLenLocal secCur secNext pd.fractionOfSection,
+                                  cur.thLocal next pd.fractionOfSection pd.fractionOfSegment⟩⟩ := by
         injection hh with hh; injection hh with hh; exact hh.symm
       subst this
       refine ⟨rfl, ?_⟩
-      refine ⟨?_, hfin, ⟨secCur, secNext, hsc, hsn, hc, hn, hin⟩, hth, htt⟩
+      refine ⟨?_, hfin, ⟨secCur, secNext, hsc, hsn, hc, hn, hin, rfl⟩, hth, htt⟩
       unfold LineFeature.geometry LineFeature.startRadius
       exact hg
     · intro hm
       rw [key hm]
+      rfl
   · have hb : (if f.isFault then
           decide (fabs pd.distanceFromPlane ≤ (cur.thickness.x + pd.fractionOfSection * (next.thickness.x - cur.thickness.x) +
             pd.fractionOfSegment * (cur.thickness.y + pd.fractionOfSection * (next.thickness.y - cur.thickness.y) -
@@ -234,7 +240,7 @@ theorem coversBody_after (f : LineFeature R) (ctx : Ctx R) (q : Query R) (pd : P
     · intro hh; cases hh
     · intro hm
       have := key hm; subst this
-      obtain ⟨sc, sn, h1, h2, _, _, h5⟩ := hm.2.segments
+      obtain ⟨sc, sn, h1, h2, _, _, h5, _⟩ := hm.2.segments
       rw [hsc] at h1; cases h1
       rw [hsn] at h2; cases h2
       exact absurd h5 hin
